@@ -104,6 +104,12 @@ func peach(fm *Frame, opts peachOpt, f Callable, inputs Inputs) error {
 		}
 		if workerSema != nil {
 			workerSema.Acquire(ctx, 1)
+			// A callback may have broken or failed while we were waiting for a
+			// worker; don't start another one in that case.
+			if atomic.LoadInt32(&broken) != 0 {
+				workerSema.Release(1)
+				return
+			}
 		}
 		wg.Add(1)
 		go func() {
